@@ -226,7 +226,8 @@ def emitAssignment (env : Env) (key : Str) (value : Value) (ind : Nat) (leading 
   | v =>
     (emitValue v ind).map fun vs =>
       let vs' := forceQuote key vs v
-      let tr := match trailing with | some c => if c.isEmpty then [] else " // ".toList ++ c | none => []
+      -- `_emit_trailing_comment`: `f" // {comment}".rstrip()` — an empty comment is kept as " //"
+      let tr := match trailing with | some c => env.rstrip (" // ".toList ++ c) | none => []
       leadingLines env leading ind ++ [indentStr ind ++ key ++ "::".toList ++ vs' ++ tr]
 
 mutual
